@@ -187,9 +187,11 @@ func specs() []rsx.RouteSpec {
 
 func requests() []rsx.Req { return requestsFor([]string{"", "a.b"}) }
 
-func requestsFor(hosts []string) []rsx.Req {
+func requestsFor(hosts []string) []rsx.Req { return requestsDepth(hosts, 2) }
+
+func requestsDepth(hosts []string, depth int) []rsx.Req {
 	var out []rsx.Req
-	paths := append(rsx.GenPaths([]string{"a", "b"}, 2), "*")
+	paths := append(rsx.GenPaths([]string{"a", "b"}, depth), "*")
 	for _, h := range hosts {
 		for _, p := range paths {
 			for _, m := range []string{"GET", "POST", "DELETE", "FOO", "OPTIONS", "CONNECT"} {
@@ -233,6 +235,15 @@ func run(c *mc.Ctx, r *mc.Result) {
 		sp3 = append(sp3, rsx.RouteSpec{Method: x[0], Pattern: x[1]})
 	}
 	runSpecs(c, r, "space.mixed-trees", sp3, 4, requestsFor([]string{"", "a.b", "ab", "aa", "a", "b.b", "a.bb"}))
+	// infix catch-alls next to parameter routes of depth 3: the lazy per-method lookups must backtrack
+	// out of a failed infix branch
+	var sp4 []rsx.RouteSpec
+	for _, p := range []string{"/a/*{x}/b", "/{p}/a/b", "/{p}/b/a", "/*{w}/b", "/a/{p}/b", "/a/*{x}/b/a"} {
+		for _, m := range []string{"GET", "POST"} {
+			sp4 = append(sp4, rsx.RouteSpec{Method: m, Pattern: p})
+		}
+	}
+	runSpecs(c, r, "space.infix", sp4, 3, requestsDepth([]string{""}, 3))
 }
 
 func runSpecs(c *mc.Ctx, r *mc.Result, name string, sp []rsx.RouteSpec, k int, rqs []rsx.Req) {
